@@ -371,3 +371,86 @@ Section Sets.
   Theorem cfilter_spec k l x : In x (cfilter hp k l) <-> In x l /\ compliant hp k x = true.
   Proof. unfold cfilter. apply filter_In. Qed.
 End Sets.
+
+(** * C18: the sampler *)
+Section Sampler.
+  Variable hp : R.
+  Hypothesis Hhp : 0 < hp.
+  Let P := 2 * hp.
+
+  Lemma sample_width_total a b : sample_width hp a b <> None.
+  Proof.
+    unfold sample_width. destruct (a <? b)%num; [discriminate|]. destruct (a =? b)%num; [discriminate|].
+    pose proof (adv_fuel_enough hp Hhp a b). destruct (advance hp (adv_fuel hp a b) a b) as [e|]; [|contradiction].
+    destruct (a <? e)%num; discriminate.
+  Qed.
+
+  (** gen_range is only ever called with a non-empty range (no panic) *)
+  Lemma sample_width_positive a b w : sample_width hp a b = Some (Some w) -> 0 < w.
+  Proof.
+    unfold sample_width. rsimp.
+    destruct (Rltb a b) eqn:E1; [apply Rltb_true in E1; intros [= <-]; lra|].
+    destruct (Reqb a b) eqn:E2; [intros [= <-]; unfold two_pi, n2; rsimp; lra|].
+    destruct (advance hp (adv_fuel hp a b) a b) as [e|]; [|discriminate].
+    destruct (Rltb a e) eqn:E3; [apply Rltb_true in E3; intros [= <-]; lra | discriminate].
+  Qed.
+
+  (** every draw lies on the arc of its joint *)
+  Theorem random_angle_on_arc a b u x : 0 <= u < 1 -> random_angle hp a b u = Some x -> on_arc hp a b x.
+  Proof.
+    intros Hu. unfold random_angle, sample_width, on_arc. rsimp. fold P.
+    destruct (Rltb a b) eqn:E1.
+    - apply Rltb_true in E1. intros [= <-]. right; left. split; [exact E1|]. exists 0%Z. simpl. nra.
+    - apply Rltb_false in E1. destruct (Reqb a b) eqn:E2.
+      + apply Reqb_true in E2. intros _. left. exact E2.
+      + apply Reqb_false in E2.
+        destruct (advance hp (adv_fuel hp a b) a b) as [e|] eqn:Hadv; [|discriminate].
+        apply (advance_spec hp) in Hadv. destruct Hadv as [n [Hn [He [Hle Hlt]]]].
+        assert (Hba : b < a) by lra. specialize (Hlt Hba). fold P in He, Hlt.
+        destruct (Rltb a e) eqn:E3; [apply Rltb_true in E3 | apply Rltb_false in E3]; intros [= <-];
+          right; right; (split; [exact Hba|]); exists 0%Z, n; rewrite <- He; simpl; split; nra.
+  Qed.
+
+  Lemma random_angle_total a b u : random_angle hp a b u <> None.
+  Proof.
+    unfold random_angle. pose proof (sample_width_total a b).
+    destruct (sample_width hp a b) as [[w|]|]; [discriminate|discriminate|contradiction].
+  Qed.
+
+  Theorem random_angles_on_arcs : forall from to us xs,
+    length from = length to -> length us = length from ->
+    Forall (fun u => 0 <= u < 1) us ->
+    random_angles hp from to us = Some xs -> Forall3 (on_arc hp) from to xs.
+  Proof.
+    induction from as [|a from IH]; intros [|b to] [|u us] xs Hl Hu HU; simpl in Hl, Hu; try discriminate; cbn [random_angles].
+    - intros [= <-]. constructor.
+    - inversion HU as [|? ? Hu0 HU']; subst.
+      destruct (random_angle hp a b u) as [x|] eqn:Ex; [|discriminate].
+      destruct (random_angles hp from to us) as [xs'|] eqn:Exs; [|discriminate].
+      intros [= <-]. constructor; [eapply random_angle_on_arc; eassumption|].
+      eapply IH; try eassumption; lia.
+  Qed.
+
+  Lemma random_angles_length : forall from to us xs,
+    length from = length to -> length us = length from ->
+    random_angles hp from to us = Some xs -> length xs = length from.
+  Proof.
+    induction from as [|a from IH]; intros [|b to] [|u us] xs Hl Hu; simpl in Hl, Hu; try discriminate; cbn [random_angles].
+    - intros [= <-]. reflexivity.
+    - destruct (random_angle hp a b u) as [x|]; [|discriminate].
+      destruct (random_angles hp from to us) as [xs'|] eqn:Exs; [|discriminate].
+      intros [= <-]. simpl. f_equal. eapply IH; try eassumption; lia.
+  Qed.
+
+  (** C18: a drawn vector is accepted by the same constraints, for every outcome of the random generator *)
+  Theorem sample_compliant from to w k us xs :
+    length from = length to -> length us = length from -> Forall (fun u => 0 <= u < 1) us ->
+    mk_constraints hp from to w = Some k ->
+    random_angles hp from to us = Some xs -> compliant hp k xs = true.
+  Proof.
+    intros Hl Hu HU Hk Hx.
+    apply (compliant_iff_on_arc hp Hhp from to w k xs Hl); [|exact Hk|].
+    - eapply random_angles_length; eassumption.
+    - eapply random_angles_on_arcs; eassumption.
+  Qed.
+End Sampler.
